@@ -2,7 +2,8 @@
 From Coq Require Import String.
 From Coq Require Import ZArith List Bool.
 From LasV Require Import Lib.Base Lib.Layout Gen.GenHeaderLayout Gen.GenFormatBits Gen.GenDims Model.Las Model.LasSpec Model.HeaderOps
-  Proofs.HeaderLen Proofs.VlrProofs Proofs.HeaderProofs Proofs.HeaderMisc Proofs.HeaderOpsProofs Model.HeaderObj Proofs.HeaderObjProofs.
+  Proofs.HeaderLen Proofs.VlrProofs Proofs.HeaderProofs Proofs.HeaderMisc Proofs.HeaderOpsProofs Model.HeaderObj Proofs.HeaderObjProofs
+  Model.HeaderAttr Proofs.HeaderAttrProofs Model.HeaderSession Proofs.HeaderSessionProofs.
 Import ListNotations.
 Open Scope list_scope.
 Open Scope Z_scope.
@@ -113,11 +114,80 @@ Theorem C07_field_independent : forall o1 o2 es1 es2 h1 b1 h2 b2 r1 r2 n,
 Proof. exact field_independent. Qed.
 Print Assumptions C07_field_independent.
 
+(* ---- every assignment to a public attribute of a header (Model/HeaderAttr.v; the harness enumerates the attributes by introspection) ---- *)
+
+(* no sequence of API calls and assignments `header.<any public attribute> = value` yields an incompatible pair, and the pair is
+   compatible after each single step of such a history *)
+Theorem C07_never_incompatible_any_assignment : forall ops s, hcompat s = true -> hcompat (hrun2 s ops) = true.
+Proof. exact never_incompatible2. Qed.
+Print Assumptions C07_never_incompatible_any_assignment.
+Theorem C07_compatible_after_each_step : forall ops s, hcompat s = true -> Forall (fun r => hcompat (snd r) = true) (htrace2 s ops).
+Proof. exact trace_compatible2. Qed.
+Print Assumptions C07_compatible_after_each_step.
+(* an assignment to any attribute other than `version` and `point_format` does not reach the pair, refused or stored *)
+Theorem C07_assignment_elsewhere_keeps_pair : forall s a x, a <> AVersion -> a <> APointFormat -> hrun1_2 s (HAssign a x) = s.
+Proof. exact assign_elsewhere_keeps_pair. Qed.
+Print Assumptions C07_assignment_elsewhere_keeps_pair.
+Theorem C07_api_histories_unchanged : forall ops s, hrun2 s (map HApi ops) = hrun s ops.
+Proof. exact hrun2_api. Qed.
+Print Assumptions C07_api_histories_unchanged.
+(* the check is needed at EVERY mutation point: one attribute storing a version unchecked leaves the legal pairs *)
+Theorem C07_unchecked_attribute_breaks : hcompat (mkHS (1, 4) 6) = true /\ hcompat (hstep_unchecked (mkHS (1, 4) 6) (1, 2)) = false.
+Proof. exact unchecked_attribute_breaks. Qed.
+Print Assumptions C07_unchecked_attribute_breaks.
+
+(* ---- in-place rewrite: the header object of an open writer / appender edited between open and close (Model/HeaderSession.v) ---- *)
+
+(* no edit of the public API reaches the offset the object remembers from the first write *)
+Theorem C07_edits_keep_offset : forall es o, forallb edit_public es = true ->
+  aint (ho_fields (apply_edits o es)) "offset_to_point_data" = aint (ho_fields o) "offset_to_point_data".
+Proof. exact edits_keep_offset. Qed.
+Print Assumptions C07_edits_keep_offset.
+(* whatever was edited: an accepted rewrite has the length and the offset of the first write ... *)
+Theorem C07_session_keeps_offset : forall o o1 bs1 es h2 bs2,
+  open_session o = Ok (o1, bs1) -> forallb edit_public es = true ->
+  close_session (apply_edits o1 es) = Ok (h2, bs2) ->
+  len bs2 = len bs1 /\ aint h2 "offset_to_point_data" = len bs1.
+Proof. exact session_keeps_offset. Qed.
+Print Assumptions C07_session_keeps_offset.
+(* ... so the file after close() is a block of the same length followed by exactly what followed the first header (the point
+   records, the EVLRs): refused and untouched, or rewritten in front of the first point record - never over it *)
+Theorem C07_session_never_overwrites_points : forall o o1 bs1 es rest,
+  open_session o = Ok (o1, bs1) -> forallb edit_public es = true ->
+  exists hdr', file_after_close (bs1 ++ rest) (apply_edits o1 es) = hdr' ++ rest /\ length hdr' = length bs1.
+Proof. exact session_never_overwrites. Qed.
+Print Assumptions C07_session_never_overwrites_points.
+(* an edit that changes the size of the header + VLR block is refused at close *)
+Theorem C07_session_refuses_resize : forall o o1 bs1 es vb hs0,
+  open_session o = Ok (o1, bs1) -> forallb edit_public es = true ->
+  let f := ho_fields (apply_edits o1 es) in
+  aint f "point_count" <= max_point_count (aint f "version.major") (aint f "version.minor") ->
+  enc_vlrs false (ho_vlrs (apply_edits o1 es)) = Ok vb ->
+  header_size_tbl (aint f "version.major") (aint f "version.minor") = Some hs0 ->
+  hs0 + len (abytes f "extra_header_bytes") + len vb + len (abytes f "extra_vlr_bytes") <> len bs1 ->
+  close_session (apply_edits o1 es) = Err ELaspy.
+Proof. exact session_refuses_resize. Qed.
+Print Assumptions C07_session_refuses_resize.
+(* necessity: an edit of the VLR list that refreshes the remembered offset from the new list leaves the guard nothing to compare with *)
+Theorem C07_refreshing_edit_defeats_guard : forall o vl vb hs0,
+  let f := ho_fields (set_vlrs_refreshing o vl) in
+  enc_vlrs false vl = Ok vb ->
+  header_size_tbl (aint (ho_fields o) "version.major") (aint (ho_fields o) "version.minor") = Some hs0 ->
+  hs0 + len (abytes f "extra_header_bytes") + len vb + len (abytes f "extra_vlr_bytes") = aint f "offset_to_point_data".
+Proof. exact refreshing_edit_defeats_guard. Qed.
+Print Assumptions C07_refreshing_edit_defeats_guard.
+
 Example C07_nonvacuous :
   valid_date 2024 12 31 = true /\ yday 2024 12 31 = 366 /\ of_yday 2023 59 = Some (2023, 2, 28)
   /\ hcompat (hrun (mkHS (1, 2) 3) [HSetFormat 6; HConvert (Some 6) None; HSetVersion (1, 2); HSetFormat 0]) = true
   /\ hrun (mkHS (1, 2) 3) [HSetFormat 6; HConvert (Some 6) None; HSetVersion (1, 2); HSetFormat 0] = mkHS (1, 4) 0
   /\ existsb (String.eqb "number_of_evlrs") (header_field_names 4) = true /\ derived_name "number_of_evlrs" = false
   /\ forallb (fun n => negb (derived_name n) || existsb (String.eqb n) ["offset_to_point_data"; "header_size"; "number_of_vlrs"]%string)
-       (header_field_names 4) = true.
+       (header_field_names 4) = true
+  /\ map (fun r => (fst r, hs_v (snd r), hs_f (snd r)))
+        (htrace2 (mkHS (1, 4) 6) [HAssign AReadOnly (XVersion (1, 2)); HAssign APlain (XVersion (1, 2)); HAssign AVersion (XVersion (1, 2));
+                                  HAssign APointFormat (XFormat 3); HAssign AVersion (XVersion (1, 2)); HAssign APointFormat XOther])
+      = [(false, (1, 4), 6); (true, (1, 4), 6); (false, (1, 4), 6); (true, (1, 4), 3); (true, (1, 2), 3); (false, (1, 2), 3)]
+  /\ edit_public (ESetVlrs []) = true /\ edit_public (ESetField "extra_header_bytes" (VBytes [1; 2])) = true
+  /\ edit_public (ESetField "offset_to_point_data" (VInt 0)) = false.
 Proof. vm_compute. repeat split; reflexivity. Qed.
